@@ -1,0 +1,95 @@
+//go:build verif
+
+// Machine-checked contracts for package boltz. This file contains comments
+// only; it is read by /verif/bin/govc (build tag `verif`) and is invisible
+// otherwise.
+package boltz
+
+//@ func (*scanner).setPaging
+//@   props C02
+//@   requires query != nil
+//@   modifies s.targetOffset, s.targetLimit, qHasSkip[query], qSkip[query], qHasLimit[query], qLimit[query]
+//@   ensures[offset] s.targetOffset == ite(old(qHasSkip[query]), old(qSkip[query]), 0)
+//@   ensures[limit] s.targetLimit == ite(old(qHasLimit[query]) && old(qLimit[query]) >= 0, old(qLimit[query]), MaxInt64)
+//@   ensures[limit-nonneg] s.targetLimit >= 0
+
+// ---------------------------------------------------------------------------
+// Store facts used by scans (constant during one scan: a scan only reads)
+// ---------------------------------------------------------------------------
+
+//@ spec storeIsChild(store Int) Bool
+//@ spec storeIsExtended(store Int) Bool
+//@ spec entPresent(store Int, id Str) Bool
+
+//@ func (Store).IsChildStore
+//@   pure
+//@   ensures result == storeIsChild(self)
+//@ func (Store).IsExtended
+//@   pure
+//@   ensures result == storeIsExtended(self)
+//@ func (Store).IsEntityPresent
+//@   pure
+//@   ensures result == entPresent(self, id)
+
+//@ func (*rowCursorImpl).NextRow
+//@   modifies rs.currentRow, symRow[rs]
+//@   ensures symRow[rs] == str(id)
+//@   ensures rs.currentRow == id
+//@ func (*rowCursorImpl).Tx
+//@   pure
+//@   ensures result == rs.tx
+
+// matches(c, filter, store, i): element i of cursor c's sequence belongs to the scan
+//@ spec matches(seq (Array Int Str), filter Int, store Int, i Int) Bool
+//@ lemma matches_def: (forall ((seq (Array Int Str)) (f Int) (st Int) (i Int)) (! (= (matches seq f st i) (and (nodeSem f (select seq i)) (not (and (storeIsChild st) (not (entPresent st (select seq i))) (not (storeIsExtended st)))))) :pattern ((matches seq f st i))))
+// cnt(..., i): number of matching elements among the first i
+//@ spec cnt(seq (Array Int Str), filter Int, store Int, i Int) Int
+//@ axiom cnt_def: (forall ((seq (Array Int Str)) (f Int) (st Int) (i Int)) (! (and (= (cnt seq f st 0) 0) (=> (>= i 0) (= (cnt seq f st (+ i 1)) (+ (cnt seq f st i) (ite (matches seq f st i) 1 0))))) :pattern ((cnt seq f st (+ i 1))) :pattern ((matches seq f st i))))
+//@ spec nth(seq (Array Int Str), filter Int, store Int, j Int) Int
+//@ axiom nth_def: (forall ((seq (Array Int Str)) (f Int) (st Int) (i Int)) (! (=> (and (>= i 0) (matches seq f st i)) (= (nth seq f st (cnt seq f st i)) i)) :pattern ((matches seq f st i))))
+
+//@ func (*uniqueIndexScanner).IsValid
+//@   props C02 C14
+//@   pure
+//@   ensures result == (scanner.current != nil)
+//@ func (*uniqueIndexScanner).Current
+//@   props C02 C14
+//@   pure
+//@   ensures result == scanner.current
+
+//@ func (*uniqueIndexScanner).nextUnpaged
+//@   props C02
+//@   requires scanner.cursor != nil && scanner.rowCursor != nil && scanner.filter != nil && scanner.store != nil
+//@   requires 0 <= curPos[scanner.cursor] && curPos[scanner.cursor] <= curLen[scanner.cursor]
+//@   modifies scanner.current, curPos[scanner.cursor], scanner.rowCursor.currentRow, symRow[scanner.rowCursor]
+//@   ensures[exhausted] scanner.current == nil ==> curPos[scanner.cursor] == curLen[scanner.cursor] && cnt(curSeq[scanner.cursor], scanner.filter, scanner.store, curLen[scanner.cursor]) == cnt(curSeq[scanner.cursor], scanner.filter, scanner.store, old(curPos[scanner.cursor]))
+//@   ensures[found] scanner.current != nil ==> old(curPos[scanner.cursor]) < curPos[scanner.cursor] && curPos[scanner.cursor] <= curLen[scanner.cursor] && str(scanner.current) == curSeq[scanner.cursor][curPos[scanner.cursor]-1] && matches(curSeq[scanner.cursor], scanner.filter, scanner.store, curPos[scanner.cursor]-1) && cnt(curSeq[scanner.cursor], scanner.filter, scanner.store, curPos[scanner.cursor]-1) == cnt(curSeq[scanner.cursor], scanner.filter, scanner.store, old(curPos[scanner.cursor]))
+//@   invariant 1: old(curPos[scanner.cursor]) <= curPos[scanner.cursor] && curPos[scanner.cursor] <= curLen[scanner.cursor]
+//@   invariant 1: cnt(curSeq[scanner.cursor], scanner.filter, scanner.store, curPos[scanner.cursor]) == cnt(curSeq[scanner.cursor], scanner.filter, scanner.store, old(curPos[scanner.cursor]))
+//@   invariant 1: cursor == scanner.cursor && rowCursor == scanner.rowCursor
+
+//@ func newRowCursor
+//@   pure
+//@   ensures result != nil && fresh(result) && result.entity == entity && result.tx == tx
+
+// page(S, m, off, lim): count is the number of matching elements; the result holds the
+// matching elements number off, off+1, ... (at most lim of them), in sequence order.
+//@ func (*uniqueIndexScanner).ScanCursor
+//@   props C02
+//@   requires query != nil && scanner.store != nil
+//@   requires scanner.offset == 0 && scanner.count == 0 && scanner.collected == 0
+//@   modifies scanner.*, qHasSkip[query], qSkip[query], qHasLimit[query], qLimit[query], curPos, symRow, any rowCursorImpl.currentRow
+//@   ensures[nil-cursor] scanner.cursor == nil ==> result0 == nil && result1 == 0
+//@   ensures[count] scanner.cursor != nil ==> result1 == cnt(curSeq[scanner.cursor], query, scanner.store, curLen[scanner.cursor])
+//@   ensures[len] scanner.cursor != nil ==> len(result0) == max(0, min(result1 - max(scanner.targetOffset, 0), scanner.targetLimit))
+//@   ensures[elems] scanner.cursor != nil ==> forall(k, 0 <= k && k < len(result0) ==> result0[k] == curSeq[scanner.cursor][nth(curSeq[scanner.cursor], query, scanner.store, k + max(scanner.targetOffset, 0))])
+//@   ensures[paging] scanner.targetOffset == ite(old(qHasSkip[query]), old(qSkip[query]), 0) && scanner.targetLimit == ite(old(qHasLimit[query]) && old(qLimit[query]) >= 0, old(qLimit[query]), MaxInt64)
+//@   ensures[err] result2 == nil
+//@   invariant 1: scanner.cursor != nil && scanner.rowCursor != nil && scanner.filter == query && scanner.store != nil && scanner.targetLimit >= 0
+//@   invariant 1: 0 <= curPos[scanner.cursor] && curPos[scanner.cursor] <= curLen[scanner.cursor] && curLen[scanner.cursor] < MaxInt64
+//@   invariant 1: scanner.current != nil ==> curPos[scanner.cursor] >= 1 && matches(curSeq[scanner.cursor], query, scanner.store, curPos[scanner.cursor]-1) && str(scanner.current) == curSeq[scanner.cursor][curPos[scanner.cursor]-1] && scanner.count == cnt(curSeq[scanner.cursor], query, scanner.store, curPos[scanner.cursor]-1) && scanner.count <= curPos[scanner.cursor]-1
+//@   invariant 1: scanner.current == nil ==> curPos[scanner.cursor] == curLen[scanner.cursor] && scanner.count == cnt(curSeq[scanner.cursor], query, scanner.store, curLen[scanner.cursor]) && scanner.count <= curPos[scanner.cursor]
+//@   invariant 1: 0 <= scanner.count && scanner.offset == min(scanner.count, max(scanner.targetOffset, 0))
+//@   invariant 1: scanner.collected == min(scanner.count - scanner.offset, scanner.targetLimit)
+//@   invariant 1: len(result) == scanner.collected
+//@   invariant 1: forall(k, 0 <= k && k < len(result) ==> result[k] == curSeq[scanner.cursor][nth(curSeq[scanner.cursor], query, scanner.store, k + max(scanner.targetOffset, 0))])
